@@ -339,6 +339,8 @@ def execute(config, chooser):
         except BaseException as e:
             how = ("raised", type(e).__name__, str(e)[:200])
         ended_at = reactor.seconds() - started_at
+        if reactor.blocked_forever:
+            problems.append(("hang", "the reactor was left spinning with %s" % (reactor.blocked_forever,)))
         interrupt_at = None
         for e in reactor.log:
             if e[0] == "SIGINT":
